@@ -104,7 +104,9 @@ func (m *Module) HandleDagazQuadSample(ctx context.Context, msg hwebsocket.Msg) 
 			continue
 		}
 		quad := NewQuadFromProtobuf(newQuad)
+		m.state.mutex.Lock()
 		m.state.SpatialPartition.InsertQuad(quad)
+		m.state.mutex.Unlock()
 	}
 
 	return nil
@@ -129,6 +131,7 @@ func (m *Module) HandleDagazGetGroundPlane(ctx context.Context, respond hwebsock
 	}
 
 	ray := NewRayFromProtobuf(req.Ray)
+	m.state.mutex.RLock()
 	quadHit, _ := m.state.SpatialPartition.IntersectQuad(ray)
 
 	if quadHit == nil {
@@ -140,6 +143,7 @@ func (m *Module) HandleDagazGetGroundPlane(ctx context.Context, respond hwebsock
 		}
 	}
 	sampleGroundQuad := quadHit.ToProtobuf()
+	m.state.mutex.RUnlock()
 
 	respond.Send(&dagazpb.DagazGetGroundPlaneResponse{
 		Type:      dagazpb.MsgType_MSG_TYPE_DAGAZ_GET_GROUND_PLANE_RESPONSE,
@@ -168,11 +172,13 @@ func (m *Module) HandleDagazGetRegion(ctx context.Context, respond hwebsocket.Re
 		return nil
 	}
 
+	m.state.mutex.RLock()
 	regionQuads := m.state.SpatialPartition.GetRegion(NewVector3fFromProtobuf(req.Min), NewVector3fFromProtobuf(req.Max))
 	regionQuadsProtobuf := make([]*dagazpb.Quad, len(regionQuads))
 	for i := 0; i < len(regionQuads); i++ {
 		regionQuadsProtobuf[i] = regionQuads[i].ToProtobuf()
 	}
+	m.state.mutex.RUnlock()
 
 	respond.Send(&dagazpb.DagazGetRegionResponse{
 		Type:      dagazpb.MsgType_MSG_TYPE_DAGAZ_GET_REGION_RESPONSE,
@@ -196,7 +202,9 @@ func (m *Module) HandleDagazGetDebugInfo(ctx context.Context, respond hwebsocket
 			WithTag("msg_type", msg.Type)
 	}
 
+	m.state.mutex.RLock()
 	debugInfo := m.state.SpatialPartition.GetDebugInfo()
+	m.state.mutex.RUnlock()
 
 	respond.Send(&dagazpb.DagazGetDebugInfoResponse{
 		Type:           dagazpb.MsgType_MSG_TYPE_DAGAZ_GET_DEBUG_INFO_RESPONSE,
